@@ -107,9 +107,9 @@ def scratch_base():
         top = tempfile.mkdtemp(prefix="hsverif-", dir=base)
         _SCRATCH_BASE = _SCRATCH_TOP = top
         if os.environ.get("HSVERIF_SCRATCH_STYLE") == "mixed":
-            # every store of this process lives below a path with upper-case letters, a dot and a plus sign (half of the
-            # shards): code that lower-cases, case-folds or pattern-matches whole paths meets a path it changes
-            _SCRATCH_BASE = os.path.join(top, "DataONE", "Hash.Store+Tmp")
+            # every store of this process lives below a path with upper-case letters, a dot, a plus sign and brackets (half of the
+            # shards): code that lower-cases, case-folds, pattern-matches or globs whole paths meets a path it changes
+            _SCRATCH_BASE = os.path.join(top, "DataONE", "Hash.Store+Tmp[v1]")
             os.makedirs(_SCRATCH_BASE)
         import atexit
         atexit.register(cleanup_scratch, top, os.getpid())
